@@ -178,14 +178,20 @@ def _stream(ctx, data, plan, mode, validate, pseed, backend, bparam):
         def reentrant_handler(err):
             """A log-mode handler that pulls the next message from the SAME reader (skip-ahead handlers do that)."""
             r = holder.get("rdr")
-            if r is None or len(nested) > 2 * len(data) + 8:
+            # at most two levels deep (a handler that skips ahead does not recurse without bound), and a bounded
+            # number of such calls per stream
+            if r is None or holder.get("depth", 0) >= 2 or len(nested) > 2 * len(data) + 8:
                 return
+            holder["depth"] = holder.get("depth", 0) + 1
             try:
                 nested.append(1)
-                if pseed % 8 == 0:
-                    next(r)
-                else:
-                    r.read()
+                try:
+                    if pseed % 8 == 0:
+                        next(r)
+                    else:
+                        r.read()
+                finally:
+                    holder["depth"] -= 1
                 ctx.hit("reentrant_calls_ok")
             except (StopIteration,) + tuple(libs):
                 ctx.hit("reentrant_calls_ok")
@@ -193,10 +199,12 @@ def _stream(ctx, data, plan, mode, validate, pseed, backend, bparam):
                 holder["foreign"] = f"{type(e).__name__}: {e}"
 
         handler = reentrant_handler if (mode == 1 and pseed % 4 == 0) else (lambda e: None)
+        if (len(data) + pseed) % 5 == 1:
+            handler = None  # no user handler: errors go to the library's logger
         try:
             rdr = RTCMReader(stream, validate=validate, quitonerror=mode, errorhandler=handler,
                              bufsize=bparam.get("bufsize", 4096), encoding=bparam.get("encoding", 0),
-                             labelmsm=bparam.get("labelmsm", 1))
+                             labelmsm=bparam.get("labelmsm", 1), parsed=((len(data) + pseed) % 7 != 2))
             holder["rdr"] = rdr
         except doubles.BudgetExceeded as e:
             ctx.violation("no-termination", f"constructor: {e}", params)
